@@ -34,6 +34,10 @@ pub fn corpus(extras: bool, thorough: bool) -> Vec<G> {
         // a bare popping matcher directly under ?, *, | after two pushes, then a reader of the stack
         "PUSH(x) ~ PUSH(\"b\") ~ POP? ~ PEEK ~ ANY?", "PUSH(x) ~ PUSH(\"b\") ~ (POP | x) ~ POP? ~ PEEK_ALL?", "PUSH(x) ~ PUSH(\"b\") ~ POP* ~ PEEK_ALL? ~ ANY*", "PUSH(x) ~ PUSH(\"b\") ~ POP_ALL? ~ PEEK[..]? ~ ANY*",
         "PUSH(x) ~ PUSH(\"b\") ~ (POP_ALL | \"b\") ~ DROP? ~ PEEK?", "SOI ~ x* ~ EOI", "(x ~ \"b\") | x", "(x ~ \"b\")* ~ x", "PUSH(x) ~ (PEEK | x)*", "(!(\"a\" | \"b\") ~ ANY)*", "x{2,3}",
+        // a sequence whose head matches and whose tail (with nullable parts) fails, the failure absorbed
+        // by ?, *, | and followed by a reader of the position (the generator must rewind)
+        "(\"a\" ~ x+ ~ \"b\"?)? ~ ANY*", "(\"a\" ~ \"b\"+ ~ x? | x) ~ ANY*", "(\"a\" ~ (x ~ \"b\" | \"b\") | ANY ~ x) ~ ANY?", "(\"a\" ~ (x ~ (\"b\" ~ x)* ~ \"a\" | \"a\") | x ~ \"b\") ~ ANY*",
+        "(\"a\" ~ x* ~ \"b\")* ~ ANY*", "(x ~ \"b\"? ~ x)? ~ ANY*", "(\"a\" ~ (\"b\"? ~ x))* ~ ANY*", "(\"a\" ~ \"b\"* ~ x | \"a\" ~ \"b\") ~ ANY*", "!(\"a\" ~ x? ~ \"b\") ~ ANY ~ ANY*",
         // equal and zero bounds, the skipper shape under +, mixed-case insensitive literal
         "x{2,2} ~ \"a\"?", "x{0,2} ~ \"b\"?", "(!\"b\" ~ ANY)+ ~ \"b\"?", "^\"aB\" ~ x?",
     ];
